@@ -363,10 +363,74 @@ def run_family(chk, prop, exe, bdir, fam, n, rng, tag):
     return stats, allp
 
 
+def pipeline_cfg(path, n=3, k=2, avg=1, epochs=2, abort=True, monitor=True, camfail=99, storfail=99, repaired=True, live=True):
+    t = "CONSTANTS N = %d K = %d AVG = %d Epochs = %d WithAbort = %s WithMonitor = %s CamFailAt = %d StorFailAt = %d Repaired = %s\n" % (
+        n, k, avg, epochs, "TRUE" if abort else "FALSE", "TRUE" if monitor else "FALSE", camfail, storfail, "TRUE" if repaired else "FALSE")
+    t += "SPECIFICATION Spec\nINVARIANTS NoBad StorPrefix MonFresh\nCHECK_DEADLOCK FALSE\n"
+    if live:
+        t += "PROPERTIES StopReturns Terminates\n"
+    return write_cfg(path, t)
+
+
+# implementation-shaped model configurations per property (quick, thorough)
+MODELS = {
+    "C04": ([dict(abort=False)], [dict(abort=False, n=4, k=2), dict(abort=False, n=4, k=3), dict(abort=False, n=3, k=1)]),
+    "C05": ([], []),
+    "C06": ([dict()], [dict(n=4, k=2), dict(n=3, k=1)]),
+    "C07": ([dict()], [dict(n=4, k=2), dict(n=3, k=3), dict(avg=2, n=4)]),
+    "C08": ([], []),
+    "C09": ([dict(storfail=1), dict(camfail=1)], [dict(storfail=0), dict(storfail=2), dict(camfail=0), dict(camfail=2), dict(storfail=1, k=1)]),
+    "C10": ([dict(avg=2, n=4, abort=False)], [dict(avg=2, n=5), dict(avg=3, n=6, abort=False), dict(avg=2, n=4, k=1)]),
+}
+
+
+def run_models(chk, prop, bdir, thorough):
+    import concurrent.futures as cf
+    quick, more = MODELS[prop]
+    confs = quick + (more if thorough else [])
+    jobs = []
+    for i, c in enumerate(confs):
+        cfg = pipeline_cfg(os.path.join(bdir, "pipeline_%d.cfg" % i), **c)
+        jobs.append((c, cfg))
+    if prop == "C05":
+        jobs.append(({"FrameLayout": True}, None))
+
+    def one(j):
+        c, cfg = j
+        if cfg is None:
+            flc = write_cfg(os.path.join(bdir, "framelayout.cfg"),
+                            "CONSTANTS Hdr = %d MaxW = %d MaxH = %d MaxChain = 4\nSPECIFICATION Spec\nINVARIANTS HeadersAligned SizeField\nCHECK_DEADLOCK FALSE\n" % (
+                                HDR, 64 if thorough else 40, 64 if thorough else 40))
+            return c, tlc("FrameLayout", flc, bdir, workers=4, timeout=1500, coverage=False, heap="6g")
+        return c, tlc("Pipeline", cfg, bdir, workers=4, timeout=3000, coverage=True, heap="8g")
+    ex = cf.ThreadPoolExecutor(max_workers=4)
+    return ex, [ex.submit(one, j) for j in jobs]
+
+
+def collect_models(chk, futs):
+    states = trans = 0
+    for f in futs:
+        c, r = f.result()
+        what = ("FrameLayout" if "FrameLayout" in c else "Pipeline") + " " + json.dumps(c, sort_keys=True)
+        if r.violated:
+            raise Broken("%s: the implementation-shaped model violates %s (it no longer mirrors a correct runtime): %s" % (what, r.violated, r.outpath))
+        tlc_or_broken(r, what)
+        if "FrameLayout" not in c:
+            require_coverage(r, ["S4", "K3", "C9"], what)
+        states += r.distinct
+        trans += r.generated
+        chk.cov.setdefault("models", []).append({"model": what, "distinct_states": r.distinct, "transitions": r.generated,
+                                                 "complete": r.queue == 0, "wall_s": round(r.wall, 1)})
+    if states:
+        chk.set("states", states)
+        chk.set("transitions", trans)
+
+
 def main(prop, tier):
     chk = Check(prop, tier, "model_checking" if prop not in ("C09",) else "fault_enumeration")
     bdir = build_dir(prop)
     exe = pipe_build.build_pipe(bdir)
+    mex, mfuts = run_models(chk, prop, bdir, tier == "thorough")
     rng = random.Random(seed() * 1000003 + int(prop[1:]))
     n = NRUNS[tier]
     total_runs = total_events = 0
@@ -383,6 +447,8 @@ def main(prop, tier):
                 head.append(json.loads(l) if len(l) < 600 else l[:300])
         chk.sample({"family": fam, "trace_prefix": head})
         os.remove(allp)
+    collect_models(chk, mfuts)
+    mex.shutdown()
     if total_events < 1000:
         raise Broken("vacuous: only %d events" % total_events)
     chk.set("traces_validated_against_impl", total_runs)
@@ -391,7 +457,7 @@ def main(prop, tier):
     chk.set("rule", "seeded scenario generator (shapes, frame counts, ring 1.2-5 frames, schedules random/PCT/starvation, client programs); "
                     "every run differs in seed/config; non-trivial = produced storage or monitor events")
     chk.set("events_validated", total_events)
-    chk.set("checker_cmd", "tlc PipelineObs with TRACE=<vsched traces of the real runtime>")
+    chk.set("checker_cmd", "tlc Pipeline (MC cfgs, safety + liveness); tlc PipelineObs/LifecycleObs with TRACE=<vsched traces of the real runtime>")
     chk.assume("sequentially consistent flag accesses (vsched serialises threads)")
     chk.assume("mock driver: camera frame ids equal hardware ids; payload is a function of (stream, acquisition, frame, byte)")
     chk.assume("client contract: a mapped monitor region is unmapped before stop is called (abort may be called while holding)")
